@@ -103,8 +103,22 @@ pub fn ranks(g: &Game) -> (u8, u8) {
     }
 }
 
+/// order of the two seats' best five cards by the *rules* evaluator (`rpharness::poker::best5`,
+/// brute force over all 5-subsets; independent of the engine's `Strength`). Needs a full board.
+pub fn rules_ranks(h0: u64, h1: u64, board: u64) -> (u8, u8) {
+    let short = rpharness::is_shortdeck();
+    let a = rpharness::poker::best5(h0 | board, short);
+    let b = rpharness::poker::best5(h1 | board, short);
+    match a.cmp(&b) {
+        std::cmp::Ordering::Greater => (1, 0),
+        std::cmp::Ordering::Less => (0, 1),
+        std::cmp::Ordering::Equal => (1, 1),
+    }
+}
+
 fn classify(h0: u64, h1: u64, board: u64) -> &'static str {
-    match strength_of(h0 | board).cmp(&strength_of(h1 | board)) {
+    let short = rpharness::is_shortdeck();
+    match rpharness::poker::best5(h0 | board, short).cmp(&rpharness::poker::best5(h1 | board, short)) {
         std::cmp::Ordering::Greater => "seat0-wins",
         std::cmp::Ordering::Less => "seat1-wins",
         std::cmp::Ordering::Equal => "tie",
@@ -121,21 +135,78 @@ pub fn make_deals(rng: &mut Rng, n: usize) -> Vec<Deal> {
     let mut out = vec![];
     // ranks 0..12 = 2..A ; the short deck keeps ranks >= 4 (six and up)
     let (a, k, q, j, t, n9, n8, n7, n6) = (12, 11, 10, 9, 8, 7, 6, 5, 4);
-    let crafted: Vec<(u64, u64, [u64; 3])> = vec![
+    let (n5, n4, n3, n2) = (3u64, 2u64, 1u64, 0u64); // 5, 4, 3, 2: standard deck only
+    let mut crafted: Vec<(u64, u64, [u64; 3])> = vec![
         // aces vs seven-six on a dry board: seat 0 wins
         (card(a, 0) | card(a, 1), card(n7, 2) | card(n6, 3), [card(k, 0) | card(n9, 1) | card(t, 2), card(q, 3), card(n8, 0)]),
         // mirrored: seat 1 wins
         (card(n7, 2) | card(n6, 3), card(a, 0) | card(a, 1), [card(k, 0) | card(n9, 1) | card(t, 2), card(q, 3), card(n8, 0)]),
-        // broadway straight on the board, nobody improves: tie
+        // broadway straight on the board, nobody improves: tie (the board is the best hand)
         (card(n7, 0) | card(n6, 1), card(n7, 2) | card(n6, 3), [card(a, 0) | card(k, 1) | card(q, 2), card(j, 3), card(t, 0)]),
         // same pocket ranks, no flush: tie
         (card(a, 0) | card(k, 1), card(a, 2) | card(k, 3), [card(n9, 0) | card(n8, 1) | card(n6, 2), card(q, 3), card(n7, 3)]),
         // flush over straight
         (card(a, 0) | card(n6, 0), card(j, 1) | card(t, 2), [card(n9, 0) | card(n8, 0) | card(n7, 0), card(q, 3), card(k, 1)]),
+        // ---- the top of the ladder
+        // royal flush on the board: tie with the maximal strength
+        (card(n7, 0) | card(n6, 1), card(n8, 2) | card(n6, 3), [card(t, 3) | card(j, 3) | card(q, 3), card(k, 3), card(a, 3)]),
+        // royal flush dealt flop-first the other way round (ace on the flop)
+        (card(n9, 0) | card(n9, 1), card(n8, 0) | card(n8, 1), [card(a, 2) | card(k, 2) | card(q, 2), card(j, 2), card(t, 2)]),
+        // royal flush with seat 0's hole cards against quad nines
+        (card(a, 3) | card(k, 3), card(n9, 0) | card(n9, 3), [card(q, 3) | card(j, 3) | card(t, 3), card(n9, 1), card(n9, 2)]),
+        // mirrored: seat 1 holds the royal flush
+        (card(n9, 0) | card(n9, 3), card(a, 3) | card(k, 3), [card(q, 3) | card(j, 3) | card(t, 3), card(n9, 1), card(n9, 2)]),
+        // royal flush against the queen-high straight flush of the same suit
+        (card(a, 1) | card(k, 1), card(n9, 1) | card(n8, 1), [card(q, 1) | card(j, 1) | card(t, 1), card(n7, 0), card(n6, 2)]),
+        (card(n9, 1) | card(n8, 1), card(a, 1) | card(k, 1), [card(q, 1) | card(j, 1) | card(t, 1), card(n7, 0), card(n6, 2)]),
+        // royal flush with one hole card (ace) over the king-high straight flush on the board
+        (card(a, 0) | card(n6, 1), card(n7, 2) | card(n6, 3), [card(n9, 0) | card(t, 0) | card(j, 0), card(q, 0), card(k, 0)]),
+        (card(n7, 2) | card(n6, 3), card(a, 0) | card(n6, 1), [card(n9, 0) | card(t, 0) | card(j, 0), card(q, 0), card(k, 0)]),
+        // the same straight flush for both seats: king-high on the board, nobody has the ace
+        (card(a, 1) | card(n6, 1), card(a, 2) | card(n7, 3), [card(n9, 0) | card(t, 0) | card(j, 0), card(q, 0), card(k, 0)]),
+        // straight flush against straight flush, one rank apart (seat 1 higher)
+        (card(n7, 2) | card(n6, 2), card(q, 2) | card(j, 2), [card(n8, 2) | card(n9, 2) | card(t, 2), card(a, 0), card(a, 1)]),
+        // ---- the board is the best hand
+        // full house on the board, low holes: tie
+        (card(n7, 0) | card(n6, 1), card(n8, 2) | card(n6, 3), [card(a, 0) | card(a, 1) | card(a, 2), card(k, 0), card(k, 1)]),
+        // quads with the ace kicker on the board: tie
+        (card(k, 0) | card(q, 1), card(j, 2) | card(n6, 3), [card(n9, 0) | card(n9, 1) | card(n9, 2), card(n9, 3), card(a, 1)]),
+        // quads on the board with a low board kicker: the higher hole kicker wins
+        (card(k, 0) | card(n7, 1), card(q, 2) | card(j, 3), [card(n9, 0) | card(n9, 1) | card(n9, 2), card(n9, 3), card(n6, 1)]),
+        // flush on the board, one seat holds a higher card of the suit
+        (card(k, 2) | card(n7, 1), card(n6, 0) | card(n6, 1), [card(a, 2) | card(q, 2) | card(n9, 2), card(n8, 2), card(n7, 2)]),
+        // flush on the board, nobody has the suit: tie
+        (card(k, 0) | card(k, 1), card(a, 0) | card(a, 1), [card(q, 2) | card(j, 2) | card(n9, 2), card(n8, 2), card(n6, 2)]),
+        // ---- kickers
+        // same pair, kicker decides
+        (card(a, 0) | card(k, 1), card(a, 2) | card(q, 3), [card(a, 3) | card(n9, 1) | card(n7, 2), card(n6, 3), card(j, 0)]),
+        // same two pair, the fifth card plays from the board: tie
+        (card(a, 0) | card(n6, 1), card(a, 2) | card(n7, 3), [card(a, 3) | card(k, 1) | card(k, 2), card(q, 3), card(j, 0)]),
     ];
+    if !rpharness::is_shortdeck() {
+        crafted.extend(vec![
+            // wheel (five-high straight) against a pair of aces / against a seven-high straight
+            (card(a, 0) | card(n2, 1), card(a, 2) | card(k, 3), [card(n3, 0) | card(n4, 1) | card(n5, 2), card(q, 3), card(n9, 0)]),
+            (card(a, 0) | card(n2, 1), card(n6, 2) | card(n7, 3), [card(n3, 0) | card(n4, 1) | card(n5, 2), card(q, 3), card(n9, 0)]),
+            // wheel on the board: tie; steel wheel (five-high straight flush) against quads
+            (card(k, 0) | card(q, 1), card(j, 2) | card(n9, 3), [card(a, 0) | card(n2, 1) | card(n3, 2), card(n4, 3), card(n5, 0)]),
+            (card(a, 1) | card(n2, 1), card(k, 0) | card(k, 2), [card(n3, 1) | card(n4, 1) | card(n5, 1), card(k, 1), card(k, 3)]),
+            // the weakest hands there are: seven-high against eight-high
+            (card(n2, 0) | card(n3, 1), card(n2, 1) | card(n8, 2), [card(n4, 2) | card(n5, 3) | card(n7, 0), card(n3, 3), card(n2, 3)]),
+            (card(n7, 0) | card(n2, 1), card(n8, 1) | card(n2, 2), [card(n3, 2) | card(n4, 3) | card(n6, 0), card(j, 3), card(k, 3)]),
+        ]);
+    } else {
+        crafted.extend(vec![
+            // short-deck wheel A-6-7-8-9 against a pair of aces / against a jack-high straight
+            (card(a, 0) | card(n6, 1), card(a, 2) | card(k, 3), [card(n7, 0) | card(n8, 1) | card(n9, 2), card(q, 3), card(q, 0)]),
+            (card(a, 0) | card(n6, 1), card(t, 2) | card(j, 3), [card(n7, 0) | card(n8, 1) | card(n9, 2), card(k, 3), card(k, 0)]),
+            // short-deck wheel on the board: tie
+            (card(k, 0) | card(q, 1), card(k, 2) | card(q, 3), [card(a, 0) | card(n6, 1) | card(n7, 2), card(n8, 3), card(n9, 0)]),
+        ]);
+    }
     for (h0, h1, st) in crafted {
         let all = h0 | h1 | st[0] | st[1] | st[2];
-        assert!(all & !full == 0 && all.count_ones() == 9, "crafted deal outside the configured deck");
+        assert!(all & !full == 0 && all.count_ones() == 9, "crafted deal outside the configured deck or with a repeated card: {h0} {h1} {st:?}");
         out.push(Deal { h0, h1, streets: st, class: classify(h0, h1, st[0] | st[1] | st[2]) });
     }
     while out.len() < n {
